@@ -59,3 +59,5 @@ def handle (inp out : Sexp) : CaseResult :=
   | _ => .bad s!"undecodable input {inp}"
 
 end QV.C07
+
+def main : IO UInt32 := QV.runMain QV.C07.handle
